@@ -71,8 +71,9 @@ class RG:
             return "(%s %s)" % (r.choice(["-", "+", "not", "bnot"]), e())
         if k < 0.26:
             # negative literals in operand positions that bind tighter than unary minus
-            neg = r.choice(["-1", "-2", "-5", "-1.5", "-2j"])
-            return r.choice(["(** %s 2)", "(.conjugate %s)", "(. %s real)", "(get [1 2 3] %s)", "(abs %s)", "(** 2 %s)"]) % neg
+            neg = r.choice(["-1", "-2", "-5", "-1.5", "-2j", "(- 2)", "(- 1.5)", "(- 3)", "(+ 2)", "(- (- 2))", "-0.0"])
+            return r.choice(["(** %s 2)", "(.conjugate %s)", "(. %s real)", "(get [1 2 3] %s)", "(abs %s)", "(** 2 %s)",
+                             "(.bit-length (int %s))", "(** %s 3)", "(str (. %s imag))"]) % neg
         if k < 0.34:
             op = r.choice(["=", "<", "<=", "!=", ">", "is", "in", "not-in", "is-not"])
             if op in ("in", "not-in"):
@@ -163,11 +164,16 @@ class RG:
 
     def match_expr(self, d):
         r = self.r
-        out = "(match %s" % self.expr(d + 1)
+        subj = r.choice([self.expr(d + 1), "[1 2 3]", '{"k" 1 "j" 2}', "1", "#(5 2)", "[1 7]"])
+        out = "(match %s" % subj
         for _ in range(r.randint(1, 3)):
             v = self.name()
+            if r.random() < 0.35:
+                # binding positions of patterns with names that are Python keywords (MatchAs.name, MatchStar.name, MatchMapping.rest)
+                v = r.choice(["if", "class", "def", "lambda", "pass", "is", "in", "with", "as", "from"])
             pat = r.choice(["1", '"s"', "None", "[1 %s]" % v, "[%s #* zq-rest]" % v, '{"k" %s}' % v, "(| 1 2)", "(| 3 4) :as %s" % v,
-                            "%s :if (> %s 1)" % (v, v), v, "_", ":kw", "(int)", "#(%s 2)" % v])
+                            "%s :if (> %s 1)" % (v, v), v, "_", ":kw", "(int)", "#(%s 2)" % v,
+                            "[1 #* %s]" % v, "[#* %s]" % v, '{"k" 1 #** %s}' % v, "{#** %s}" % v, "1 :as %s" % v, "[%s %s2]" % (v, v)])
             out += " %s %s" % (pat, self.with_defined(v, lambda: self.stmt_expr(d + 1)))
         return out + ")"
 
